@@ -14,6 +14,17 @@ BASELINE_OFF = (
 
 # id -> (level, technique, level text, level note, design ref)
 T = {
+    "C03": (
+        "model_checking",
+        "explicit-state search over the hidden state of live Geometry objects (fixpoint) + all call sequences up to a length + exhaustive lattice with complete impulse bases",
+        "Histories: for every geometry kind/weight form the hidden state of one object (cached volumes) is explored breadth-first with full-content "
+        "hashing until no new state appears, and all un-deduplicated sequences of integrate() calls over {native, coarser, finer, other-coarser} x "
+        "{array, Image} up to length 3 (thorough 5) are replayed; every return value must be bit-identical to the same call on a fresh object, and the "
+        "fresh value must equal the reference sum. Values: integrate is linear, so the complete impulse basis at every resolution "
+        "(refinement {1,2,3}^d, every divisor coarsening) for every payload layout decides the value for all data of that shape.",
+        "Trusted: numpy reference sums; 1e-12 relative tolerance, 1e-6 where OpenCV area-resamples array weights. Shapes <= 4x6 / 2x2x2; array weights at foreign resolution 2-D only (API).",
+        "DESIGN.md §3 C03",
+    ),
     "C02": (
         "model_checking",
         "explicit-state BFS over live Image objects to a fixpoint (full-content hashing), every transition executed on the implementation and decoded through provenance-coded data",
